@@ -266,8 +266,17 @@ func (x *c16) bsonArm(spec c16BsonSpec, ops []c16Op, doc *ssa.Function) string {
 		}
 		return named(rd[0])
 	case "string":
-		if len(rd) != 2 || !isK(rd[0], "US", 32) || rd[1].Kind != "UTF8NullFixed" || !rd[1].Bits.eq(len1) {
+		if len(rd) == 2 && rd[1].Kind == "UTF8NullFixed" {
+			return "the value is read with a reader that cuts at the first NUL: a bson string may contain NUL bytes, only its last byte is the terminator"
+		}
+		if len(rd) != 2 || !isK(rd[0], "US", 32) || rd[1].Kind != "UTF8" || !rd[1].Bits.eq(len1) {
 			return "expected int32 length then length bytes (incl. NUL), found " + c16OpsStr(rd)
+		}
+		// the length bytes include the terminator: without a mapper it would be part of the value
+		if a := rd[1].Call.Common().Args; len(a) == 0 {
+			return "no arguments on the value read"
+		} else if c, isC := a[len(a)-1].(*ssa.Const); isC && c.IsNil() {
+			return "the value read has no mapper: the terminating NUL stays in the value"
 		}
 		if !ok || !net.eq(len1.add(linC(32))) {
 			return "net bits " + net.String()
